@@ -34,6 +34,23 @@ class Form:
         return self.line
 
 
+class Late:
+    """An argument value that the direct call resolves when it is made (the object a dotted path names NOW)."""
+
+    def __init__(self, *path):
+        self.path = path
+
+    def get(self):
+        o = vw
+        for a in self.path:
+            o = getattr(o, a)
+        return o
+
+
+def _res(x):
+    return x.get() if isinstance(x, Late) else x
+
+
 def opt_subsets(options):
     """options: list of (flag, [ (token, value), ... ]) -> all subsets x all value choices."""
     for r in range(len(options) + 1):
@@ -87,10 +104,10 @@ def forms_for(cls_name, full=True):
         for line, nm, pvals, kw in method_form(name, list(positional), list(options)):
             if star:
                 def call(pool, nm=nm, pvals=pvals, kw=kw):
-                    return getattr(pool, nm)(*pvals[0], **kw)
+                    return getattr(pool, nm)(*pvals[0], **{k: _res(v) for k, v in kw.items()})
             else:
                 def call(pool, nm=nm, pvals=pvals, kw=kw):
-                    return getattr(pool, nm)(*pvals, **kw)
+                    return getattr(pool, nm)(*[_res(v) for v in pvals], **{k: _res(v) for k, v in kw.items()})
             F.append(Form(line, call, waits))
 
     def prop(name, values=()):
@@ -150,9 +167,9 @@ def forms_for(cls_name, full=True):
         ecbr = ("--end-callback", "end_callback", [(VW + "ecb_raise", vw.ecb_raise)])
         add("apply", [[(VW + "boom", vw.boom), (VW + "work", vw.work)]], [ecbr])
         # functions and callbacks named by a dotted path through an object: bound methods, a classmethod
-        ecbh = ("--end-callback", "end_callback", [(VW + "handler.on_end", vw.handler.on_end), (VW + "Handler.cls_on_end", vw.Handler.cls_on_end)])
-        ccbh = ("--cancel-callback", "cancel_callback", [(VW + "handler.on_cancel", vw.handler.on_cancel)])
-        add("apply", [[(VW + "handler.work", vw.handler.work), (VW + "boom", vw.boom)]], [ecbh, ccbh])
+        ecbh = ("--end-callback", "end_callback", [(VW + "handler.on_end", Late("handler", "on_end")), (VW + "Handler.cls_on_end", vw.Handler.cls_on_end)])
+        ccbh = ("--cancel-callback", "cancel_callback", [(VW + "handler.on_cancel", Late("handler", "on_cancel"))])
+        add("apply", [[(VW + "handler.work", Late("handler", "work")), (VW + "boom", vw.boom)]], [ecbh, ccbh])
         if full:
             add("apply", [fn], [args, kwargs, num, GROUP, ECB, CCB])
             add("map", [fn, [("[1,2,3]", [1, 2, 3]), ("[]", []), ("(4,)", (4,))]], [nc, GROUP, ECB, CCB])
@@ -218,6 +235,7 @@ def run_served(cls_name, size, seq, cap):
     rec = vw.Recorder(loop)
     vw.ACTIVE = rec
     pool = make_pool(cls_name, size)
+    vw.handler = vw.Handler()
     replies = []
     trace = []
     with cap.active():
@@ -232,6 +250,8 @@ def run_served(cls_name, size, seq, cap):
         loop.run_idle()
         s.take()
         for k, f in enumerate(seq):
+            if k and k == len(seq) - 1:
+                vw.handler = vw.Handler()  # the application replaced the object the dotted path names
             noise.send(("pool-size abc", "nope", "cancel -h")[k % 3])
             loop.run_idle()
             noise.take()
@@ -252,9 +272,12 @@ def run_twin(cls_name, size, seq):
     rec = vw.Recorder(loop)
     vw.ACTIVE = rec
     pool = make_pool(cls_name, size)
+    vw.handler = vw.Handler()
     replies = []
     trace = []
-    for f in seq:
+    for k_, f in enumerate(seq):
+        if k_ and k_ == len(seq) - 1:
+            vw.handler = vw.Handler()
         box = []
 
         async def drive(f=f):
